@@ -28,6 +28,7 @@ import (
 	"math"
 	"regexp"
 	"strconv"
+	"strings"
 	"time"
 )
 
@@ -132,10 +133,16 @@ func ParsePostgreSQLInterval(s string) (result time.Duration, err error) {
 	if err = adjustDuration(&result, matches[pgIntervalRegexp.SubexpIndex("hours")], time.Hour); err != nil {
 		return
 	}
-	if err = adjustDuration(&result, matches[pgIntervalRegexp.SubexpIndex("minutes")], time.Minute); err != nil {
+	// PostgreSQL prints one sign for the whole time part (`-00:00:01` is minus
+	// one second), so it applies to the minutes, seconds and sub-seconds too
+	todSign := time.Duration(1)
+	if strings.HasPrefix(matches[pgIntervalRegexp.SubexpIndex("hours")], "-") {
+		todSign = -1
+	}
+	if err = adjustDuration(&result, matches[pgIntervalRegexp.SubexpIndex("minutes")], todSign*time.Minute); err != nil {
 		return
 	}
-	if err = adjustDuration(&result, matches[pgIntervalRegexp.SubexpIndex("seconds")], time.Second); err != nil {
+	if err = adjustDuration(&result, matches[pgIntervalRegexp.SubexpIndex("seconds")], todSign*time.Second); err != nil {
 		return
 	}
 	// sub-seconds require more logic, as the scale depends on the length
@@ -150,7 +157,7 @@ func ParsePostgreSQLInterval(s string) (result time.Duration, err error) {
 		// len(subsecs) is in the range [1..9], so we know that
 		// int64(math.Pow10(...)) will be exactly correct, and evenly divide
 		// time.Second
-		subsecscale := time.Second / time.Duration(math.Pow10(len(subsecs)))
+		subsecscale := todSign * time.Second / time.Duration(math.Pow10(len(subsecs)))
 		if err = adjustDuration(&result, subsecs, subsecscale); err != nil {
 			return
 		}
